@@ -281,18 +281,6 @@ Qed.
 
 End Train.
 
-(* ------------------------------------------------------------------ statistics returned by the forward *)
-Lemma bn_running_stats_update_proof : forall n x weight bias (m v : R) momentum eps,
-  (let '(_, rm', rv', mean, var) := batch_norm_forward n x weight bias (Some m) (Some v) true momentum eps in
-   rm' = Some (vmean n x * momentum + m * (1 - momentum)) /\
-   rv' = Some (vvar n x * (INR n / (INR n - 1)) * momentum + v * (1 - momentum)) /\
-   mean = vmean n x /\ var = vvar n x) /\
-  (let '(_, rm', rv', mean, var) := batch_norm_forward n x weight bias (Some m) (Some v) false momentum eps in
-   rm' = Some m /\ rv' = Some v /\ mean = m /\ var = v).
-Proof.
-  intros. unfold batch_norm_forward. destruct weight, bias; cbv zeta iota beta; repeat split; reflexivity.
-Qed.
-
 Lemma batch_mode_examples_proof :
   batch_mode true (Some 0) (Some 1) /\ batch_mode false None None /\ ~ batch_mode false (Some 0) (Some 1).
 Proof.
